@@ -246,14 +246,15 @@ theorem SeqRel.propagate (C : SeqCorr D f topo regs net) {r : Rd} {s : State Int
 /-- **Stage 2: one clock cycle.**  `cycleA` (settle, all register bodies on pre-edge values, non-blocking updates applied
     together, settle) corresponds to `clk(1)` (`propagateAll`, `clock()` of every `Reg`, `settleAll`, `propagateAll`):
     related states go to related states, and afterwards EVERY name carries the simulator's value of its net. -/
-theorem cycle_corr (C : SeqCorr D f topo regs net) {r : Rd} {s : State Int} (h : SeqRel D f.assigns net r s) :
+theorem cycle_corr (C : SeqCorr D f topo regs net) {r : Rd} {s : State Int} (h : SeqRel D f.assigns net r s)
+    (hg0 : D.good (propagateAll D.design s).val) (hg1 : D.good (clk D.design 1 s).val) :
     SeqRel D f.assigns net (cycleA f r) (clk D.design 1 s) ∧
     Rel net D.wd (clk D.design 1 s).val (cycleA f r) := by
   -- names
   let d := D.design
   let s1 := propagateAll d s
   let r1 := settleA f.assigns r
-  have hr1 : Rel net D.wd s1.val r1 := comb_corr C.sched C.comb s h.inv r h.info h.und _ (Nat.le_refl _)
+  have hr1 : Rel net D.wd s1.val r1 := comb_corr C.sched C.comb s h.inv r h.info h.und hg0 _ (Nat.le_refl _)
   have hi1 : r1.info = r.info := iter_passA_info _ _ _
   have hI1 : InfoOK D f.assigns net r1 := InfoOK_congr hi1.symm h.info
   have h1 : SeqRel D f.assigns net r s1 := h.propagate C
@@ -336,7 +337,7 @@ theorem cycle_corr (C : SeqCorr D f topo regs net) {r : Rd} {s : State Int} (h :
       rw [hv2 n hnrq, hr1n, h.und n k hn hu, hs2k]
   -- settle again
   have hr3 : Rel net D.wd (propagateAll d s2).val (settleA f.assigns r2) :=
-    comb_corr C.sched C.comb s2 hs2 r2 hI2 hund2 _ (Nat.le_refl _)
+    comb_corr C.sched C.comb s2 hs2 r2 hI2 hund2 hg1 _ (Nat.le_refl _)
   have hclk : clk d 1 s = { propagateAll d s2 with clks := (propagateAll d s2).clks + 1 } := rfl
   have hi3 : (settleA f.assigns r2).info = r.info := by
     show (Net.iter (passA f.assigns) f.assigns.length r2).info = _
